@@ -564,8 +564,12 @@ func (r *hdRun) exec(o *hdOp) string {
 		mk := map[string]int{"offer": 0, "requestoffer": 1, "candidate": 2, "sendoffer": 3, "answer": 4, "unshareScreen": 5, "selectStream": 6, "endOfCandidates": 7}[o.Mk]
 		return fmt.Sprintf("OMedia %d %s %d %d %d", o.C, rterm, mk, st, o.Media)
 	case "mcudone":
-		s.mcu.release(o.Tok, o.Res)
-		return fmt.Sprintf("OMcuDone %d %s", o.Tok, coqBool(o.Res == "ok"))
+		tok := s.mcu.firstPending(o.Tok)
+		if tok == 0 {
+			return ""
+		}
+		s.mcu.release(tok, o.Res)
+		return fmt.Sprintf("OMcuDone %d %s", tok, coqBool(o.Res == "ok"))
 	case "transient":
 		if c == nil {
 			return ""
